@@ -44,6 +44,12 @@ P("C02",
      "layout -> metainfo.NewInfo -> allocator.Run(mem storage) -> piece.NewPieces: section walk == file walk of F, piece lengths, "
      "CalculateBlocks == non-padding bytes exactly, Write/ReadAt round trip on sub-ranges, verifier metamorphic (flip one byte)",
      Q(12000, 6), T(1600000), min_nontrivial_frac=0.3),
+   U("c02.create", "c02", "TestCreate",
+     "a generated directory tree (1-9 files, 1-3 levels, names chosen so that a directory name is a prefix of sibling names, zero-length files, lengths around block and piece size) "
+     "or a single file is written to disk, a torrent is created from it with the client's own creation code (piece length chosen or automatic, explicit name or not), and "
+     "(1) independently: every file listed once with its length, and hashing the files in the listed order reproduces every piece hash; (2) with the client's own pipeline: the "
+     "allocator finds every file and the verifier verifies every piece",
+     Q(1200, 8), T(60000), min_nontrivial_frac=0.3),
   ])
 
 P("C03",
